@@ -380,17 +380,19 @@ func blackBox(c *hlib.Ctx, prop string) {
 	switch prop {
 	case "C10":
 		bbNonBlocking(c)
+		bbSinkAnswers(c)
 	case "C11":
 		bbCloseDrains(c)
 		bbOverflowEpisodes(c, true)
 		bbSinkFaults(c)
-		bbConcurrentClosers(c)
+		bbConcurrentClosers(c, true)
 		fatalPath(c)
 	case "C12":
 		bbDeliversWhenIdle(c)
 		bbCloseDrains(c)
 		bbOverflowEpisodes(c, false)
 		bbCloseWhileStalledAndWriting(c)
+		bbConcurrentClosers(c, false)
 		bbPollerStaysPrompt(c)
 	}
 }
